@@ -229,6 +229,7 @@ class Sim:
         self.reapplied_after_take = False
         self.equal_layouts = set()
         self.consumed = False
+        self.derived = False
         warnings.simplefilter("ignore")
         LO.set_container(case.get("ct"))
         try:
@@ -290,6 +291,21 @@ class Sim:
                         self.r.fail("not-reproducible:%s" % self.sp["op"],
                                     "re-applying %s to the same input gave a different result (max diff %s)"
                                     % (which, np.max(np.abs(y - y0)) if y.shape == y0.shape else "shape"))
+            elif k == "derive":
+                # other operators are BUILT from this one (S + C, S - C, c * S, S * I, stacks): constructing them must not
+                # change what S itself does (reapply rules) - the results are discarded
+                import sigpy
+                L = sigpy.linop
+                S = self.op
+                Ii, Io = L.Identity(S.ishape), L.Identity(S.oshape)
+                for make in (lambda: S + S, lambda: S - S, lambda: (S + S) + S, lambda: op["c"] * S, lambda: S * Ii, lambda: Io * S,
+                             lambda: S.H * S + op["c"] * Ii, lambda: L.Vstack([S, S], axis=0), lambda: L.Hstack([S, S], axis=0),
+                             lambda: -S, lambda: L.Conj(S)):
+                    try:
+                        make()
+                    except Exception:
+                        pass
+                self.derived = True
             elif k == "consume":
                 # the operator object is handed to a solver (as users do) between applications: afterwards it must
                 # still be the same map (reapply rules) built from unchanged arrays (snapshots below)
@@ -348,6 +364,8 @@ class Sim:
             self.r.label("equal-input:" + l)
         if self.consumed:
             self.r.label("used-by-LinearLeastSquares")
+        if self.derived:
+            self.r.label("other-operators-derived")
         self.r.sig = LO.sig(self.sp) + "|" + ",".join(o["op"] for o in self.case["ops"])
         return self.r
 
@@ -431,6 +449,11 @@ def make_machine(col):
         @rule(k=st.integers(0, 50))
         def reapply(self, k):
             self._do({"op": "reapply", "k": k})
+
+        @precondition(lambda self: self.sim is not None and len(self.sim.inputs) > 0)
+        @rule(c=st.sampled_from([2.0, -0.5, 0.25]))
+        def derive(self, c):
+            self._do({"op": "derive", "c": c})
 
         @precondition(lambda self: self.sim is not None and len(self.sim.inputs) > 0)
         @rule(seed=A.seeds, lamda=st.sampled_from([0.5, 1.0, 0]), solver=st.sampled_from([None, None, "GradientMethod"]))
